@@ -13,6 +13,7 @@ Consequently every C17 theorem about "after any history" holds verbatim after an
 any point of the history (`continuation_after_round_trip`).
 -/
 import PvProofs.Lemmas.TrigGenesis
+import PvProofs.C17
 
 namespace PvProofs.C18Trigger
 open PvModel.Trig PvProofs.Lemmas.Trig
@@ -119,6 +120,75 @@ theorem genesis_round_trip_store (ops : List Op) :
       (run State.init ops).1 :=
   import_export_of_wf _ (HInv_reach ops).wf (GInv_reach ops)
 
+/-- every trigger stored after any history (waiting or queued) has a valid event and valid actions:
+it comes unchanged from a create transaction that passed `ValidateBasic` -/
+theorem stored_triggers_are_valid (ops : List Op) (t : Trigger) (h : stored (run State.init ops).1 t) :
+    t.event.validate = true ∧ ∀ a ∈ t.actions, a.validateBasic = true :=
+  PvProofs.C17.stored_triggers_were_authorised ops State.init [] HInv_init
+    (fun t => t.event.validate = true ∧ ∀ a ∈ t.actions, a.validateBasic = true)
+    (by
+      intro t ht
+      rcases ht with ht | ⟨q, hq, _⟩
+      · simp [State.init] at ht
+      · simp [State.init, qList, qFrom] at hq)
+    (fun m _ _ _ _ hv _ _ _ _ => ⟨(validateBasic_ok hv).2.1, validateBasic_ok_actions hv⟩) t h
+
+/-- After any history the exported genesis state passes `GenesisState.Validate`: counters non-zero,
+one gas limit per waiting or queued trigger and no other, ids unique and not above the counter,
+events and actions valid — `InitGenesis` does not panic on it. -/
+theorem export_validates (ops : List Op) :
+    (exportGenesis (run State.init ops).1).validate = true := by
+  have hw := (HInv_reach ops).wf
+  have hg := GInv_reach ops
+  have hvalid := stored_triggers_are_valid ops
+  generalize (run State.init ops).1 = s at hw hg hvalid
+  obtain ⟨hnd, hperm⟩ := exported_ids hw
+  have hqids : (qList s).map (fun q => q.trigger.id) = qIds s := rfl
+  simp only [Genesis.validate, exportGenesis, getAllQueueItems, Bool.and_eq_true]
+  refine ⟨⟨⟨⟨⟨?_, ?_⟩, ?_⟩, ?_⟩, ?_⟩, ?_⟩
+  · have := hw.next; simp only [bne_iff_ne, ne_eq]; omega
+  · have := hg.qstart; simp only [bne_iff_ne, ne_eq]; omega
+  · have := hperm.length_eq
+    simp only [List.length_map, List.length_append, qIds] at this
+    simp only [beq_iff_eq]; omega
+  · exact (allDistinct_iff _).2 (nodup_getAllGasLimits s)
+  · rw [List.all_eq_true]
+    intro t ht
+    have hst : stored s t := by
+      rcases List.mem_append.1 ht with h | h
+      · exact Or.inl ((mem_getAllTriggers hw t).1 h)
+      · obtain ⟨q, hq, e⟩ := List.mem_map.1 h
+        exact Or.inr ⟨q, hq, e⟩
+    obtain ⟨hev, hacts⟩ := hvalid t hst
+    have hlt := stored_id_lt hw hst
+    have hgas : t.id ∈ (getAllGasLimits s).map (·.1) := by
+      rw [mem_gasKeys hw, hw.gas]
+      rcases hst with h | ⟨q, hq, e⟩
+      · left; rw [h]; rfl
+      · right; rw [← e]; exact List.mem_map.2 ⟨q, hq, rfl⟩
+    simp only [Bool.and_eq_true, List.all_eq_true, List.contains_iff_mem]
+    exact ⟨⟨⟨fun a ha => genesisValidateBasic_of_validateBasic (hacts a ha),
+      by first | exact Nat.le_of_lt hlt | exact decide_eq_true (Nat.le_of_lt hlt)⟩, hev⟩, hgas⟩
+  · rw [allDistinct_iff, List.map_append, List.map_map]
+    exact hnd
+
+/-- GENESIS ROUND TRIP of the trigger module, for every history: `InitGenesis` on the
+`ExportGenesis` of the reached store does not panic and reproduces the store, every component. -/
+theorem genesis_round_trip (ops : List Op) :
+    initGenesis (run State.init ops).1.bal (exportGenesis (run State.init ops).1) =
+      some (run State.init ops).1 := by
+  unfold initGenesis
+  rw [export_validates ops, if_pos rfl, genesis_round_trip_store ops]
+
+/-- Hence a chain restarted from an export behaves, from then on, exactly like the chain that was
+never stopped: every continuation runs identically (same store, same log), so every C17 theorem about
+the store after a history holds after an export/import at any point of it. -/
+theorem continuation_after_round_trip (ops more : List Op) (s : State)
+    (h : initGenesis (run State.init ops).1.bal (exportGenesis (run State.init ops).1) = some s) :
+    run s more = run (run State.init ops).1 more := by
+  rw [genesis_round_trip ops] at h
+  cases h; rfl
+
 /-! ### non-vacuity: a concrete reachable store with waiting and queued triggers -/
 
 /-- two triggers for height 11 and one for height 20; the EndBlock at height 11 queues the first two -/
@@ -138,5 +208,17 @@ example : exportGenesis (run State.init sample).1 =
   decide
 
 example : (exportGenesis (run State.init sample).1).validate = true := by decide
+
+/-- the hypothesis of `continuation_after_round_trip` is satisfiable (by the round trip itself) -/
+example : ∃ s, initGenesis (run State.init sample).1.bal (exportGenesis (run State.init sample).1) = some s :=
+  ⟨_, genesis_round_trip sample⟩
+
+/-- `Validate` is not vacuous: an export tampered with — a gas limit dropped, or a queued trigger
+listed twice — is refused -/
+example : ({ exportGenesis (run State.init sample).1 with gasLimits := [(1, 497490), (3, 2000000)] } : Genesis).validate = false ∧
+    (let g := exportGenesis (run State.init sample).1
+     ({ g with queuedTriggers := g.queuedTriggers ++ g.queuedTriggers.take 1,
+               gasLimits := g.gasLimits ++ [(9, 1)] } : Genesis).validate = false) := by
+  decide
 
 end PvProofs.C18Trigger
